@@ -503,12 +503,12 @@ pub mod sched {
 
     /// The root has finished spawning and is about to wait for its scope. Releases the token. Does
     /// not block: rayon's scope does the waiting (possibly by running tasks on this thread).
-    pub fn scope_wait() {
+    pub fn scope_wait(region: &'static str) {
         if current_task() != Some(0) {
             return;
         }
         let mut s = lock_sched();
-        if !s.active {
+        if !s.active || s.region != region || s.holder != Some(0) {
             return;
         }
         s.tasks[0].state = State::ScopeWait;
@@ -546,12 +546,14 @@ pub mod sched {
     pub struct Ticket(u32);
 
     /// Called by the spawning task immediately before it spawns a task.
-    pub fn ticket(label: &'static str) -> Ticket {
-        let Some(_me) = current_task() else {
+    pub fn ticket(region: &'static str, label: &'static str) -> Ticket {
+        let Some(me) = current_task() else {
             return Ticket(NO_TICKET);
         };
         let mut s = lock_sched();
-        if !s.active {
+        // Code of another (unscheduled) region can run nested on the thread of this region's
+        // waiting root. Its tasks are not ours.
+        if !s.active || s.region != region || s.holder != Some(me) {
             return Ticket(NO_TICKET);
         }
         let id = s.tasks.len() as u32;
@@ -659,7 +661,7 @@ pub mod sched {
     /// Updates a component of the abstract protocol state that is hashed into state fingerprints.
     pub fn abstract_set(kind: &'static str, index: u64, value: u64) {
         let mut s = lock_sched();
-        if !s.active {
+        if !s.active || s.holder.is_none() || s.holder != current_task() {
             return;
         }
         if let Some(entry) = s
